@@ -165,6 +165,7 @@ class t2incon(object):
     def read(self, filename, num_variables = None, check_blocknames = True):
         """Reads initial conditions from file."""
         self.empty()
+        self.simulator = 'TOUGH2' # (until permeabilities are found)
         mode = 'r' if sys.version_info > (3,) else 'rU'
         infile = t2incon_parser(filename, mode, read_function = self.read_function)
         infile.readline() # skip header
